@@ -107,6 +107,19 @@ func genC07(tier string, seed int64) []Case {
 		dd := d
 		cases = append(cases, Case{ID: "C07/" + d.Salt, Class: "initerror-huge", Desc: d, Timeout: 200 * time.Second, Run: func(c *Ctx) { runC07(c, dd) }})
 	}
+	// the runtime dies just before the timeout expires and the goroutine that reports the failed invocation loses the
+	// CPU until the timeout has fired and its reset has released the reservation: the late report has nobody to go to
+	for i, nap := range []string{"nap-60-before-expiry", "nap-15-before-expiry"} {
+		for j, exit := range []string{"exit1", "sigsegv"} {
+			d := c07Desc{Salt: fmt.Sprintf("late-failure-%d", i*2+j), NExt: j, Faulty: 2, T: 300, Delays: map[string]int{"fastInvoke.failureSeen": 500},
+				Rt: [][]string{{"next", nap, exit}, {"next", nap, exit}}}
+			for e := 0; e < d.NExt; e++ {
+				d.Ext = append(d.Ext, [][]string{{"register", "next", "next"}, {"register", "next", "next"}})
+			}
+			dd := d
+			cases = append(cases, Case{ID: "C07/" + d.Salt, Class: "late-failure", Desc: d, Timeout: 150 * time.Second, Run: func(c *Ctx) { runC07(c, dd) }})
+		}
+	}
 	// a client that asks for the (large) event again on a second connection and never reads the answer
 	for i, progs := range [][][]string{
 		{{"next", "next-noread", "stall"}, {"next", "respond"}, {"next", "respond"}},
@@ -161,8 +174,17 @@ func runC07(c *Ctx, d c07Desc) {
 		return
 	}
 	defer w.Close()
+	maxDelay := 0
 	for k, v := range d.Delays {
 		w.Hk.Delay(k, time.Duration(v)*time.Millisecond)
+		if v > maxDelay {
+			maxDelay = v
+		}
+	}
+	if maxDelay > 100 {
+		// a goroutine held that long may still be on its way when the last invocation is over: whatever it does
+		// (a crash included) belongs to this case
+		defer func() { time.Sleep(time.Duration(maxDelay+200) * time.Millisecond) }()
 	}
 	var mu sync.Mutex
 	rtOrd := 0
@@ -381,6 +403,13 @@ func runC07(c *Ctx, d c07Desc) {
 						return
 					case "short-stall":
 						p.Sleep(30 * time.Millisecond)
+					case "nap-60-before-expiry", "nap-15-before-expiry":
+						// the process dies just before the function timeout expires
+						ms := int64(60)
+						if s == "nap-15-before-expiry" {
+							ms = 15
+						}
+						p.Sleep(time.Duration(d.T-ms) * time.Millisecond)
 					case "exit0":
 						fault(p, s)
 						res <- vh.Exit{Code: 0}
